@@ -52,7 +52,10 @@ def batch_of(cfg):
         obs = {"pinn_in": jnp.array(xo["inputs"]), "val": jnp.array(xo["vals"]), "eq_params": {"a": jnp.array(xo["arows"])[:, None]}}
     if cfg["what"] == "obs":
         eqp = {"a": jnp.array(cfg["arows"])[:, None]} if cfg.get("arows") else {}
-        obs = {"pinn_in": jnp.array(cfg["inputs"]), "val": jnp.array(cfg["vals"]), "eq_params": eqp}
+        vals = jnp.array(cfg["vals"])
+        if cfg.get("flat_vals") and vals.shape[1] == 1:
+            vals = vals[:, 0]              # one observed component given as a 1-D table of n values
+        obs = {"pinn_in": jnp.array(cfg["inputs"]), "val": vals, "eq_params": eqp}
     pts = jnp.array(cfg["batch"])
     if cfg["kind"] == "ode":
         nj = len(xo["inputs"]) if xo else len(cfg["batch"])          # (a parameter batch has one row per observation when both are present)
@@ -99,6 +102,7 @@ def gen(rng, what, kind):
         cfg.update(inputs=[[dy(rng) for _ in range(nv)] for _ in range(n)], vals=[[float(rng.randint(-2, 2)) for _ in range(nobs)] for _ in range(n)],
                    arows=[dy(rng) for _ in range(n)] if rng.random() < 0.6 else None)
         cfg["w"] = [rng.randint(0, 4) / 2 for _ in range(nobs)] if rng.random() < 0.5 else rng.randint(1, 6) / 2
+        cfg["flat_vals"] = nobs == 1 and n >= 2 and rng.random() < 0.6
     if what != "obs" and rng.random() < 0.5:
         n = rng.randint(1, 4)
         ncol = (cfg["sol"][1] - cfg["sol"][0]) if cfg.get("sol") else len(cfg["upolys"])
